@@ -7,7 +7,7 @@ from ..core import rule
 from ..index import AnalysisError, dotted, src, walk_no_nested, names_in
 from ..cfg import CFG, UNK
 from ..domains import check_pred, eval_pred, cmp_atoms, NotComparisonOnly
-from ..util import node_calls, own_expr, truthiness_uses, explore, outcomes_by_case, enclosing_loops, loop_targets
+from ..util import node_calls, own_expr, truthiness_uses, explore, outcomes_by_case, enclosing_loops, loop_targets, mk_atoms
 from .slots import COUNTTABLE, BASEDEMUX
 
 RS = 'read_should_be_counted'
@@ -59,9 +59,14 @@ def r1(ctx):
     ok = 'blacklist_dic' in {a.arg for a in f.args.args} and any(isinstance(c, ast.Call) and dotted(c.func) == RS and len(c.args) == 3 for c in walk_no_nested(g))
     ctx.emit('C11-R1', ok, COUNTTABLE, g, f'{AR} passes read, args and the blacklist dictionary to {RS}', key='filter-call', nontrivial=False)
     calls = [c for c in walk_no_nested(g) if isinstance(c, ast.Call) and dotted(c.func) == RS]
-    first = g.body[1] if len(g.body) > 1 else None
-    ok = len(calls) == 1 and isinstance(first, ast.If) and isinstance(first.test, ast.UnaryOp) and isinstance(first.test.op, ast.Not) and first.test.operand is calls[0] \
-        and isinstance(first.body[0], ast.Return)
+    # with the filter failing no feasible path touches the count table; with it passing some path does
+    ok = len(calls) == 1
+    if ok:
+        cs = src(calls[0])
+        r_fail = explore(g.body, mk_atoms({cs: False}))
+        touched = [r for r in r_fail if any(t.startswith('countTable[') for t, v, k in r['stores'])]
+        ok = bool(r_fail) and not touched and all(r['kind'] in ('return', 'raise') for r in r_fail)
+    first = calls[0] if calls else None
     ctx.emit('C11-R1', ok, COUNTTABLE, first if first is not None else g, 'a read failing the filter returns before anything is counted', key='filter-first')
 
 
@@ -211,12 +216,21 @@ def interp(stmts, env, atoms):
     """Abstractly execute assignments / ifs over boolean atoms and small numeric values. env: name -> Sym | bool."""
     for s in stmts:
         if isinstance(s, ast.Assign) and len(s.targets) == 1 and isinstance(s.targets[0], ast.Name):
-            env[s.targets[0].id] = ev(s.value, env, atoms)
+            v_ = ev(s.value, env, atoms)
+            if v_ is None:
+                # not a weight: remember the expression (a divisor computed into a local) or that it is None
+                v_ = ('none',) if isinstance(s.value, ast.Constant) and s.value.value is None else ('expr', src(s.value))
+            env[s.targets[0].id] = v_
         elif isinstance(s, ast.AugAssign) and isinstance(s.target, ast.Name):
             env[s.target.id] = None
         elif isinstance(s, ast.If):
+            a2 = dict(atoms)
+            for nm, v in env.items():
+                if isinstance(nm, str):
+                    a2[f'{nm} is None'] = v is None or v == ('none',)
+                    a2[f'{nm} is not None'] = not (v is None or v == ('none',))
             try:
-                c = eval_pred(s.test, atoms, None)
+                c = eval_pred(s.test, a2, None)
             except NotComparisonOnly:
                 raise AnalysisError(f'weight computation: test `{src(s.test)}` uses unknown atoms')
             interp(s.body if c else s.orelse, env, atoms)
@@ -227,7 +241,8 @@ def ev(e, env, atoms):
     if isinstance(e, ast.Constant) and isinstance(e.value, (int, float)) and not isinstance(e.value, bool):
         return Sym(Fraction(e.value).limit_denominator(1000))
     if isinstance(e, ast.Name):
-        return env.get(e.id)
+        v_ = env.get(e.id)
+        return v_ if isinstance(v_, Sym) or v_ is None else None
     if isinstance(e, ast.IfExp):
         try:
             c = eval_pred(e.test, atoms, None)
@@ -241,6 +256,8 @@ def ev(e, env, atoms):
         r = e.right
         if isinstance(r, ast.Constant):
             return Sym(l.base / Fraction(r.value))
+        if isinstance(r, ast.Name) and isinstance(env.get(r.id), tuple) and env[r.id][0] == 'expr':
+            return Sym(l.base, env[r.id][1])
         return Sym(l.base, src(r))
     return None
 
@@ -251,19 +268,22 @@ def ev(e, env, atoms):
 def r5(ctx):
     g = ctx.fn(COUNTTABLE, AR)
     # segment from `countToAdd = 1` to the construction of count_increment
-    idx0 = [i for i, s in enumerate(g.body) if isinstance(s, ast.Assign) and src(s.targets[0]) == 'countToAdd']
+    # (the first top-level statement that stores the weight, whether a plain assignment or an if/else that assigns it in its arms)
+    idx0 = [i for i, s in enumerate(g.body) if any(isinstance(x, ast.Assign) and src(x.targets[0]) == 'countToAdd' for x in ([s] + list(walk_no_nested(s))))]
     idx1 = [i for i, s in enumerate(g.body) if isinstance(s, ast.Assign) and src(s.targets[0]) == 'count_increment']
     if not idx0 or not idx1:
         raise AnalysisError(f'{AR}: weight computation segment not found')
     seg = g.body[idx0[0]:idx1[0]]
     # boolean atoms used by the segment
     atoms = {}
+    seg_locals = {x.targets[0].id for s in seg for x in ([s] + list(walk_no_nested(s))) if isinstance(x, ast.Assign) and len(x.targets) == 1 and isinstance(x.targets[0], ast.Name)}
     for s in seg:
-        for n in walk_no_nested(s):
+        for n in [s] + list(walk_no_nested(s)):
             if isinstance(n, (ast.If, ast.IfExp)):
                 _, b = cmp_atoms(n.test)
                 atoms.update(b)
-    names = sorted(atoms)
+    # nullness tests on locals of the segment (`hits is not None`) are decided by the interpreter from what was assigned, they are no atoms
+    names = sorted(a_ for a_ in atoms if not any(a_ in (f'{l_} is None', f'{l_} is not None') for l_ in seg_locals))
     role = {}
     for a in names:
         for key, r in (('args.r1only', 'r1'), ('args.r2only', 'r2'), ('args.doNotDivideFragments', 'nodiv'), ('read.is_paired', 'paired'), ('read.mate_is_unmapped', 'mate_unmapped'),
@@ -302,11 +322,23 @@ def r5(ctx):
     ctx.exhaustive['C11-R5'] = True
     # provenance of every 'increment'
     incs = []
-    for d in walk_no_nested(g):
+    for d in ast.walk(g):        # also inside a nested record-building closure
         if isinstance(d, ast.Dict):
             for k, v in zip(d.keys, d.values):
                 if isinstance(k, ast.Constant) and k.value == 'increment':
                     incs.append(v)
+    # a closure `record(key, features, increment)` builds the dicts: the increments are the arguments of its calls
+    closures = {n.name: n for n in ast.walk(g) if isinstance(n, ast.FunctionDef) and n is not g}
+    for nm_, fn_ in closures.items():
+        pos_ = [i_ for i_, a_ in enumerate(fn_.args.args) if any(isinstance(d, ast.Dict) and any(isinstance(k, ast.Constant) and k.value == 'increment' and isinstance(v, ast.Name) and v.id == a_.arg
+                                                                                                         for k, v in zip(d.keys, d.values)) for d in ast.walk(fn_))]
+        if pos_:
+            incs = [v for v in incs if not (isinstance(v, ast.Name) and v.id == fn_.args.args[pos_[0]].arg)]
+            for c in walk_no_nested(g):
+                if isinstance(c, ast.Call) and isinstance(c.func, ast.Name) and c.func.id == nm_:
+                    a_ = c.args[pos_[0]] if len(c.args) > pos_[0] else next((k.value for k in c.keywords if k.arg == fn_.args.args[pos_[0]].arg), None)
+                    if a_ is not None:
+                        incs.append(a_)
     ctx.need('C11-R5', len(incs), 4, "'increment' entries")
     mod = ctx.ix.module(COUNTTABLE)
     okall = True
